@@ -9,3 +9,60 @@ package internal
 // Logger returns the registered scope of that name or the no-op logger: never nil.
 //@ func Logger
 //@   ensures  nonnil: result != nil
+
+//@ import configv1 "github.com/istio-ecosystem/authservice/config/gen/go/v1"
+//@ import oidcv1 "github.com/istio-ecosystem/authservice/config/gen/go/v1/oidc"
+
+// ---------------------------------------------------------------------------------------------
+// configuration loading (C17)
+// ---------------------------------------------------------------------------------------------
+
+// the sentinel errors are non-nil (established by the package initialiser)
+//@ invariant sentinels: deref(ErrInvalidPath) != nil && deref(ErrHealthPortInUse) != nil && deref(ErrInvalidURL) != nil && deref(ErrMustNotBeRootPath) != nil
+
+//@ func isRootPath
+//@   ensures  root: result == (path == "/" || path == "")
+
+//@ func hasRootPath
+//@   requires parses: uri == "" || UrlParses(uri)
+//@   ensures  root: result == (uri != "" && (UrlPath(uri) == "/" || UrlPath(uri) == ""))
+
+//@ func validateURL
+//@   ensures  parses: (result == nil) == (u == "" || UrlParses(u))
+
+//@ func applyOIDCDefaults
+//@   requires config_nonnil: config != nil
+//@   modifies config.Scopes
+//@   ensures  openid: HasOpenID(config)
+//@   loop 1 invariant noopenid: forall j int :: 0 <= j && j <= rangeindex ==> config.GetScopes()[j] != "openid"
+
+//@ func validateOIDCConfigURLs
+//@   modifies c.GetRedisSessionStoreConfig().ServerUri
+//@   ensures  urls: result == nil ==> (c.GetCallbackUri() == "" || UrlParses(c.GetCallbackUri())) && (c.GetProxyUri() == "" || UrlParses(c.GetProxyUri()))
+//@   ensures  callback_not_root: result == nil && c.GetCallbackUri() != "" ==> UrlPath(c.GetCallbackUri()) != "/" && UrlPath(c.GetCallbackUri()) != ""
+
+//@ func validateURLs
+//@   requires wf: config != nil && WFConfig(config)
+//@   modifies heap oidcv1.RedisConfig.ServerUri
+//@   ensures  callbacks: result == nil ==> CallbacksParse(config)
+//@   loop 1 invariant wf: WFConfig(config) && config.Chains == $rangeslice1
+//@   loop 1 invariant parsed: UrlParses(config.DefaultOidcConfig.GetCallbackUri()) && forall i int, j int :: 0 <= i && i <= rangeindex1 && 0 <= j && j < len(config.Chains[i].Filters) ==> UrlParses(config.Chains[i].Filters[j].GetOidc().GetCallbackUri()) && UrlParses(config.Chains[i].Filters[j].GetOidcOverride().GetCallbackUri())
+//@   loop 2 invariant wf: WFConfig(config) && config.Chains == $rangeslice1 && config.Chains[rangeindex1 + 1].Filters == $rangeslice2
+//@   loop 2 invariant parsed1: UrlParses(config.DefaultOidcConfig.GetCallbackUri()) && forall i int, j int :: 0 <= i && i <= rangeindex1 && 0 <= j && j < len(config.Chains[i].Filters) ==> UrlParses(config.Chains[i].Filters[j].GetOidc().GetCallbackUri()) && UrlParses(config.Chains[i].Filters[j].GetOidcOverride().GetCallbackUri())
+//@   loop 2 invariant parsed2: forall j int :: 0 <= j && j <= rangeindex2 ==> UrlParses(config.Chains[rangeindex1 + 1].Filters[j].GetOidc().GetCallbackUri()) && UrlParses(config.Chains[rangeindex1 + 1].Filters[j].GetOidcOverride().GetCallbackUri())
+
+//@ func mergeAndValidateOIDCConfigs
+//@   requires wf: cfg != nil && WFConfig(cfg) && OverridesHaveDefault(cfg) && CallbacksParse(cfg)
+//@   modifies everything
+//@   loop 1 invariant wf: cfg != nil && WFConfig(cfg) && OverridesHaveDefault(cfg) && CallbacksParse(cfg) && cfg.Chains == $rangeslice1
+//@   loop 2 invariant wf: cfg != nil && WFConfig(cfg) && OverridesHaveDefault(cfg) && CallbacksParse(cfg) && cfg.Chains == $rangeslice1 && cfg.Chains[rangeindex1 + 1].Filters == $rangeslice2
+
+//@ func (*LocalConfigFile).Validate
+//@   requires wf: l != nil
+//@   modifies everything
+//@   ensures  typed: result == nil ==> FiltersTyped(addr(l.Config))
+//@   loop 1 invariant wf: l != nil && WFConfig(addr(l.Config)) && CallbacksParse(addr(l.Config)) && addr(l.Config).Chains == $rangeslice1
+//@   loop 1 invariant noover: addr(l.Config).DefaultOidcConfig == nil ==> forall i int, j int :: 0 <= i && i <= rangeindex1 && 0 <= j && j < len(addr(l.Config).Chains[i].Filters) ==> addr(l.Config).Chains[i].Filters[j].GetOidcOverride() == nil
+//@   loop 2 invariant wf: l != nil && WFConfig(addr(l.Config)) && CallbacksParse(addr(l.Config)) && addr(l.Config).Chains == $rangeslice1 && addr(l.Config).Chains[rangeindex1 + 1].Filters == $rangeslice2
+//@   loop 2 invariant noover1: addr(l.Config).DefaultOidcConfig == nil ==> forall i int, j int :: 0 <= i && i <= rangeindex1 && 0 <= j && j < len(addr(l.Config).Chains[i].Filters) ==> addr(l.Config).Chains[i].Filters[j].GetOidcOverride() == nil
+//@   loop 2 invariant noover2: addr(l.Config).DefaultOidcConfig == nil ==> forall j int :: 0 <= j && j <= rangeindex2 ==> addr(l.Config).Chains[rangeindex1 + 1].Filters[j].GetOidcOverride() == nil
